@@ -302,6 +302,16 @@ func (d *protoDom) loopArrive(fr *sFrame, st *sState, b, pred *ssa.BasicBlock) b
 	if !h.symbolic || len(h.snaps) < 3 {
 		return true
 	}
+	// when the loop cannot be generalised it is unrolled further: the path conditions may end it after a few iterations
+	// (a driver loop that runs a top-up step, a whole-blocks step and a tail step); only a loop that neither generalises
+	// nor ends is given up
+	giveUp := func(reason string) bool {
+		if len(h.snaps) >= 10 {
+			e.fail("%s", reason)
+			return false
+		}
+		return true
+	}
 	// generalise from the entry state and two iterations
 	s0, s1, s2 := h.snaps[len(h.snaps)-3], h.snaps[len(h.snaps)-2], h.snaps[len(h.snaps)-1]
 	d.loopVars++
@@ -310,8 +320,7 @@ func (d *protoDom) loopArrive(fr *sFrame, st *sState, b, pred *ssa.BasicBlock) b
 	for phi, v0 := range s0.phis {
 		gv, ok := affine3(v0, s1.phis[phi], s2.phis[phi], k)
 		if !ok {
-			e.fail("loop at %s: %s does not advance by a constant per iteration (%s, %s, %s)", pos, phi.Name(), d.show(st, v0), d.show(st, s1.phis[phi]), d.show(st, s2.phis[phi]))
-			return false
+			return giveUp(fmt.Sprintf("loop at %s: %s does not advance by a constant per iteration (%s, %s, %s)", pos, phi.Name(), d.show(st, v0), d.show(st, s1.phis[phi]), d.show(st, s2.phis[phi])))
 		}
 		g.phis[phi] = gv
 	}
@@ -320,29 +329,25 @@ func (d *protoDom) loopArrive(fr *sFrame, st *sState, b, pred *ssa.BasicBlock) b
 		v1, ok1 := s1.fields[f]
 		if !ok0 || !ok1 {
 			if ok0 != ok1 {
-				e.fail("loop at %s: field %s appears during the loop", pos, f)
-				return false
+				return giveUp(fmt.Sprintf("loop at %s: field %s appears during the loop", pos, f))
 			}
 			// first touched inside the loop and created lazily: its value must not change between iterations
 			continue
 		}
 		gv, ok := affine3(v0, v1, v2, k)
 		if !ok {
-			e.fail("loop at %s: field %s does not advance by a constant per iteration", pos, f)
-			return false
+			return giveUp(fmt.Sprintf("loop at %s: field %s does not advance by a constant per iteration", pos, f))
 		}
 		g.fields[f] = gv
 	}
 	e1, e2 := st.geff[s0.neff:s1.neff], st.geff[s1.neff:s2.neff]
 	if len(e1) != len(e2) {
-		e.fail("loop at %s: iterations have different effects", pos)
-		return false
+		return giveUp(fmt.Sprintf("loop at %s: iterations have different effects", pos))
 	}
 	for i := range e1 {
 		do, ds, ok := effShapeEqual(e1[i], e2[i])
 		if !ok {
-			e.fail("loop at %s: iterations have different effects", pos)
-			return false
+			return giveUp(fmt.Sprintf("loop at %s: iterations have different effects", pos))
 		}
 		g.body = append(g.body, e1[i])
 		g.dOff = append(g.dOff, do)
@@ -350,13 +355,11 @@ func (d *protoDom) loopArrive(fr *sFrame, st *sState, b, pred *ssa.BasicBlock) b
 	}
 	f1, f2 := st.pfacts[s0.nfacts:s1.nfacts], st.pfacts[s1.nfacts:s2.nfacts]
 	if len(f1) != 1 || len(f2) != 1 || f1[0].a == nil || f2[0].a == nil || f1[0].op != f2[0].op {
-		e.fail("loop at %s: an iteration adds %d/%d path facts; only the loop condition may fork", pos, len(f1), len(f2))
-		return false
+		return giveUp(fmt.Sprintf("loop at %s: an iteration adds %d/%d path facts; only the loop condition may fork", pos, len(f1), len(f2)))
 	}
 	df, ok := constDiff(pAdd(f2[0].a, pNeg(f2[0].b)), pAdd(f1[0].a, pNeg(f1[0].b)))
 	if !ok {
-		e.fail("loop at %s: the loop condition does not advance by a constant per iteration", pos)
-		return false
+		return giveUp(fmt.Sprintf("loop at %s: the loop condition does not advance by a constant per iteration", pos))
 	}
 	fa := f1[0]
 	g.fact, g.dFact = &fa, df
@@ -732,7 +735,29 @@ func sm3CompressFn(p *Prog) *ssa.Function {
 				}
 			}
 		}
-		if onlyH && touchesH {
+		// the compression function updates the chaining value (a helper that only reads h, such as a serialiser of the
+		// digest, does not qualify)
+		writesH := false
+		for _, b := range fn.Blocks {
+			for _, in := range b.Instrs {
+				st, ok := in.(*ssa.Store)
+				if !ok {
+					continue
+				}
+				addr := st.Addr
+				for {
+					if ia, ok := addr.(*ssa.IndexAddr); ok {
+						addr = ia.X
+						continue
+					}
+					break
+				}
+				if fa, ok := addr.(*ssa.FieldAddr); ok && fa.X == ssa.Value(fn.Params[0]) {
+					writesH = true
+				}
+			}
+		}
+		if onlyH && touchesH && writesH {
 			found = append(found, fn)
 		}
 	}
